@@ -1,11 +1,14 @@
 import SasLexer.Lex.Main
 import SasLexer.Spec.Basic
+import SasLexer.Spec.C01
 import SasLexer.Spec.C06
 import SasLexer.Spec.C07
 import SasLexer.Spec.C08
 import SasLexer.Spec.C10
 import SasLexer.Spec.C11
+import SasLexer.Spec.C20
 import SasLexer.Spec.Pairs
+import SasLexer.Spec.Grammar
 open SasLexer
 
 def srcOfHexLine (line : String) : Option (List Char) := charsOfHex line.trimAscii.toString
@@ -19,6 +22,7 @@ partial def loopLines (h : IO.FS.Stream) (out : IO.FS.Stream) (f : String → St
 /-- verdict of one dump-level property on (source, dump) -/
 def verdict1 (prop : String) (s : List Char) (d : Dump) : Option Spec.Verdict :=
   match prop with
+  | "C01" => some (Spec.C01 s d)
   | "C02" => some (Spec.C02 s d)
   | "C03" => some (Spec.clause "char-offsets" (Spec.C03 s d) ++ Spec.clause "slices" (Spec.C03slices s d))
   | "C04" => some (Spec.C04 s d)
@@ -29,12 +33,53 @@ def verdict1 (prop : String) (s : List Char) (d : Dump) : Option Spec.Verdict :=
   | "C08" => some (Spec.C08 s d)
   | "C10" => some (Spec.C10 s d)
   | "C11" => some (Spec.C11 s d)
+  | "C12" => some (Spec.C12 s d)
   | _ => none
 
 def fmtVerdict (v : Spec.Verdict) : String := if v.isEmpty then "ok" else "fail " ++ ",".intercalate v
 
+def tokTypeOfName (n : String) : Option TokenType := TokenType.all.find? (·.name == n)
+def errKindOfName (n : String) : Option ErrorKind := ErrorKind.all.find? (·.name == n)
+
+def parsePairs (s : String) : Option (List (Nat × String)) :=
+  if s == "-" || s == "" then some [] else
+  (s.splitOn ",").mapM fun p => match p.splitOn ":" with
+    | [a, b] => do pure (← a.toNat?, b)
+    | _ => none
+
+def parseNats (s : String) : Option (List Nat) :=
+  if s == "-" || s == "" then some [] else (s.splitOn ",").mapM String.toNat?
+
 def checkLine (line : String) : String :=
   match line.splitOn "\t" with
+  | ["C20", hex, bytesHex] =>
+    match charsOfHex hex, bytesOfHex bytesHex.toList with
+    | some s, some b => fmtVerdict (Spec.C20 s b)
+    | _, _ => "badinput"
+  | ["C20wire", _, bytesHex] =>
+    match bytesOfHex bytesHex.toList with
+    | some b => fmtVerdict (Spec.C20wire b)
+    | none => "badinput"
+  | ["C13", hex, dump, delims, masked, hidden] =>
+    match charsOfHex hex, parseDump dump, parsePairs delims, parseNats masked, parsePairs hidden with
+    | some s, some d, some dl, some mk, some hd =>
+      match dl.mapM (fun (b, n) => (tokTypeOfName n).map (b, ·)), hd.mapM (fun (a, e) => e.toNat?.map (a, ·)) with
+      | some dl', some hd' => fmtVerdict (Spec.C13 s d dl' mk hd')
+      | _, _ => "badinput"
+    | _, _, _, _, _ => "badinput"
+  | ["C14", hex, dump, kind, at_, ty] =>
+    match charsOfHex hex, parseDump dump, errKindOfName kind, at_.toNat?, tokTypeOfName ty with
+    | some s, some d, some k, some a, some t => fmtVerdict (Spec.C14 s d k a t)
+    | _, _, _, _, _ => "badinput"
+  | ["C15", hexA, hexB, dA, dB, dAB] =>
+    match charsOfHex hexA, charsOfHex hexB, parseDump dA, parseDump dB, parseDump dAB with
+    | some a, some b, some x, some y, some z =>
+      if Spec.closedPrefix a x && b.head? != some BOM && y.outcome == .ok then fmtVerdict (Spec.C15 a b x y z) else "n/a"
+    | _, _, _, _, _ => "badinput"
+  | ["C16", hex, hex2, d1, d2] =>
+    match charsOfHex hex, charsOfHex hex2, parseDump d1, parseDump d2 with
+    | some s, some s2, some a, some b => fmtVerdict (Spec.C16 s s2 a b)
+    | _, _, _, _ => "badinput"
   | [prop, hex, d1, d2] =>
     match charsOfHex hex, parseDump d1, parseDump d2 with
     | some s, some a, some b =>
@@ -44,26 +89,11 @@ def checkLine (line : String) : String :=
       | "C19" => fmtVerdict (Spec.C19 s a b)
       | _ => "unknown-property"
     | _, _, _ => "badinput"
-  | [prop, hex, hex2, d1, d2] =>
-    match charsOfHex hex, charsOfHex hex2, parseDump d1, parseDump d2 with
-    | some s, some s2, some a, some b =>
-      match prop with
-      | "C16" => fmtVerdict (Spec.C16 s s2 a b)
-      | _ => "unknown-property"
-    | _, _, _, _ => "badinput"
-  | [prop, hexA, hexB, dA, dB, dAB] =>
-    match charsOfHex hexA, charsOfHex hexB, parseDump dA, parseDump dB, parseDump dAB with
-    | some a, some b, some x, some y, some z =>
-      match prop with
-      | "C15" => if Spec.closedPrefix a x && b.head? != some BOM && y.outcome == .ok then fmtVerdict (Spec.C15 a b x y z) else "n/a"
-      | _ => "unknown-property"
-    | _, _, _, _, _ => "badinput"
   | [prop, hex, dump] =>
     match charsOfHex hex, parseDump dump with
     | some s, some d =>
       match verdict1 prop s d with
-      | some [] => "ok"
-      | some cs => "fail " ++ ",".intercalate cs
+      | some v => fmtVerdict v
       | none => "unknown-property"
     | _, _ => "badinput"
   | _ => "badinput"
